@@ -311,14 +311,14 @@ theorem ratioEnv_update (n : Nat) (b x : Nat → ℝ) (i : Nat) (t : ℝ) :
       simp [ratioEnv, hp, C06.upd, this]
     · simp [ratioEnv, hp]
 
-/-- the fold of the builder evaluates to the fold of the C06 model, node by node -/
+/-- the fold of the builder evaluates to the fold of the C06 model (`Vec` accumulator), node by node -/
 theorem eval_heights_fold (ρ : Nat → ℝ) (n : Nat) (b x : Nat → ℝ) (bE xE : Nat → Expr)
     (hb : ∀ j, eval ρ (bE j) = b (n + j)) (hx : ∀ j, eval ρ (xE j) = x j) :
-    ∀ (fwd : List (Nat × Nat)) (hE : Nat → Expr) (h : Nat → ℝ), (∀ k, eval ρ (hE k) = h k) →
+    ∀ (fwd : List (Nat × Nat)) (hE : Nat → Expr) (h : C06.Vec ℝ), (∀ k, eval ρ (hE k) = h.get k) →
       ∀ k, eval ρ ((fwd.foldl (fun h (a : Nat × Nat) =>
           updE h a.2 (add (bE a.2) (mul (xE a.2) (sub (h a.1) (bE a.2))))) hE) k)
-        = (fwd.foldl (fun h (a : Nat × Nat) =>
-          C06.upd h a.2 (b (n + a.2) + x a.2 * (h a.1 - b (n + a.2)))) h) k
+        = (fwd.foldl (fun (h : C06.Vec ℝ) (a : Nat × Nat) =>
+          C06.Vec.mk (C06.upd h.get a.2 (b (n + a.2) + x a.2 * (h.get a.1 - b (n + a.2))))) h).get k
   | [], _, _, hh => hh
   | a :: fwd, hE, h, hh => by
     simp only [List.foldl_cons]
